@@ -52,7 +52,7 @@ Definition sinv_of (arch : bytes) (prev : option Z) (e : entry) : option sinv :=
   | Some content =>
       match parse_file content with
       | None | Some [] => None
-      | Some (first :: _ as rows) =>
+      | Some ((first :: _) as rows) =>
           match find_by_name rows name_end with
           | None => None
           | Some last =>
